@@ -652,3 +652,26 @@ M('C10', 'radius-gauge-wrong-edge', 'src/airfoil.rs', """                    Cir
                             .ok_or("Trailing edge not found")?
                             .point,
                         -r,""", 'get_thickness:radius-gauge')
+# ---------------------------------------------------------------- round-3 third batch: own variants of the new obligations
+CIRF = 'src/geom2/circle2.rs'
+M('C11', 'line-circle-tangency-one-sided', CIRF, "    if (d - circle.ball.radius).abs() < 1.0e-10 {\n        // If the distance from the center to the line", "    if (d - circle.ball.radius) < 1.0e-10 && d >= circle.ball.radius {\n        // If the distance from the center to the line", 'intersection_line_circle:classification')
+M('C11', 'line-circle-th-unscaled', CIRF, "        let th = h / line.dir().norm();", "        let th = h;", 'intersection_line_circle:classification')
+M('C11', 'three-points-det-sign', CIRF, "        let angle = if det < 0.0 {\n            directed_angle(&v0, &v2, Ccw)", "        let angle = if det > 0.0 {\n            directed_angle(&v0, &v2, Ccw)", 'three_points:sweep')
+M('C11', 'neutral-three-points-cross-form', CIRF, """        let det = (p1.x - p0.x) * (p1.y + p0.y)
+            + (p2.x - p1.x) * (p2.y + p1.y)
+            + (p0.x - p2.x) * (p0.y + p2.y);
+        let angle = if det < 0.0 {""", """        let turn = (p1.x - p0.x) * (p2.y - p1.y) - (p1.y - p0.y) * (p2.x - p1.x);
+        let angle = if turn > 0.0 {""", '', kind='neutral')
+M('C06', 'farthest-starts-at-zero', 'src/geom2/polyline2.rs', "    let mut farthest = f64::MIN;\n    let n = ray.dir.normalize();", "    let mut farthest = 0.0_f64;\n    let n = ray.dir.normalize();", 'farthest_point_direction_distance')
+M('C06', 'farthest-unnormalised', 'src/geom2/polyline2.rs', "    let mut farthest = f64::MIN;\n    let n = ray.dir.normalize();", "    let mut farthest = f64::MIN;\n    let n = ray.dir;", 'farthest_point_direction_distance')
+M('C03', 'plane-intersection-distance-other-denominator', 'src/geom3/plane3.rs', "            Some((p0 - sp.point).dot(&self.normal) / denom)", "            Some((p0 - sp.point).dot(&sp.normal) / denom)", 'Plane3::intersection_distance')
+M('C03', 'neutral-plane-intersection-temp', 'src/geom3/plane3.rs', "            Some((p0 - sp.point).dot(&self.normal) / denom)", "            let gap = (p0 - sp.point).dot(&self.normal);\n            Some(gap / denom)", '', kind='neutral')
+M('C04', 'between-stop-or', 'src/geom2/curve2.rs', "} else if working.length_along() <= end.length_along() && next_index > end.index {", "} else if working.length_along() <= end.length_along() || next_index > end.index {", 'between_lengths:stop')
+M('C07', 'params-3d-recomputed', 'src/geom3/align3/points_to_mesh.rs', "    fn params(&self) -> Vector<f64, U6, Self::ParameterStorage> {\n        self.params.x\n", "    fn params(&self) -> Vector<f64, U6, Self::ParameterStorage> {\n        self.params.x * 1.0\n", 'PointsToMesh::params')
+M('C13', 'mesh-transform-skip-identity-translation', 'src/geom3/mesh.rs', "        self.shape.transform_vertices(transform);", "        if transform.translation.vector.norm() > 0.0 {\n            self.shape.transform_vertices(transform);\n        }", 'Mesh::transform')
+M('C12', 'create-box-swapped', 'src/geom3/mesh.rs', "box_geom(width, height, depth)", "box_geom(height, width, depth)", 'Mesh::create_box')
+M('C15', 'poisson-squared-radius', 'src/common/poisson_disk.rs', "tree.within(&working_points[m], radius)", "tree.within(&working_points[m], radius * radius)", 'callers-plain-distance')
+M('C15', 'sample-uniform-total-before-push', 'src/geom3/mesh/sampling.rs', "            total_area += tri.area();\n            cumulative_areas.push(total_area);", "            cumulative_areas.push(total_area);\n            total_area += tri.area();", 'sample_uniform:area-table')
+M('C17', 'between-closing-le', 'src/func1/series1.rs', "        if xs[xs.len() - 1] < x1 {", "        if xs[xs.len() - 1] < x1 && !ys.is_empty() && ys[0] >= 0.0 {", 'between:x1:closing-test')
+M('C19', 'mean-point-weighted-skip-first', 'src/common/points.rs', "    for (p, w) in points.iter().zip(weights) {\n        sum += p.coords * *w;", "    for (p, w) in points.iter().zip(weights).skip(1) {\n        sum += p.coords * *w;", 'mean_point_weighted')
+M('C08', 'from-rotation-angle-order', 'src/geom3/align3/rotations.rs', "        let (w, p, r) = to_wpr(&m);\n        Self::from_euler(w, p, r)", "        let (w, p, r) = to_wpr(&m);\n        Self::from_euler(r, p, w)", 'RotationMatrices::from_rotation')
